@@ -158,7 +158,7 @@ Proof.
   eexists _, _, _. split; [reflexivity|].
   (* entries of the old list stay known, whatever happens to the proxies *)
   assert (Hk : forall e, In e (cs_es cs) -> exists p, r_prox (fst r) (e_w e) = Some p /\ known_p p (e_sn e) = true).
-  { intros e He. destruct (ci_known _ _ HI e He) as (p & A & B). destruct (Hmono _ _ A) as (p' & A' & _ & C).
+  { intros e He. destruct (ci_known _ _ HI e He) as (p & A & B). destruct (proj1 Hmono _ _ A) as (p' & A' & _ & C).
     exists p'. split; [exact A'|now apply C]. }
   destruct Hshape as [Hna|(w & sn & ts & pay & p & st1 & E1 & Ep & Ei & Eo & Er & Hd)].
   - (* no cache change *)
